@@ -43,6 +43,15 @@ var allVals = [][]byte{nil, {}, []byte("x"), []byte("y")}
 var quickVals = [][]byte{nil, {}, []byte("x")}
 var vals [][]byte
 
+// Alphabet of the RETAINED-RESULT sweep (part 1c): what matters here is the SHAPE of neighbouring
+// values (equal length with different bytes, shrinking, growing, empty in between), because a buffer
+// that is refilled in place only shows when the next value fits into it and differs from the kept
+// one. keys[0] must stay "" and vals[0] nil (the oracle's classification relies on it).
+var holdKeysQuick = [][]byte{[]byte(""), []byte("a"), []byte("ab"), []byte("b")}
+var holdKeysThorough = quickKeys
+var holdValsQuick = [][]byte{nil, {}, []byte("x"), []byte("y"), []byte("yx")}
+var holdValsThorough = [][]byte{nil, {}, []byte("x"), []byte("y"), []byte("yx"), []byte("xyz")}
+
 const (
 	opGet = iota
 	opSet
@@ -217,21 +226,62 @@ type result struct {
 	PreVal  []byte
 	Pairs   [][2][]byte
 	Overrun bool
+	// Unstable: slices handed out by Key()/Value() whose bytes changed afterwards (class, description);
+	// Pairs / PreKey / PreVal hold what the iterator said AT THE TIME (copied on the spot)
+	Unstable [][2]string
 }
 
 const maxPairs = 40
 
+func clone(b []byte) []byte {
+	if b == nil {
+		return nil
+	}
+	return append([]byte{}, b...)
+}
+
+// drain walks an iterator the way a caller that collects the pairs into a list does: every slice
+// handed out by Key() / Value() (before the first Next and at every position) is KEPT, next to a
+// copy taken on the spot. The kept slices are looked at again when the Next loop has ended and once
+// more after Release: a backend whose iterator hands out a buffer it refills on the next step shows
+// a different pair list to such a caller than one that hands out a slice of its own.
 func drain(it dbm.Iterator) (r result) {
-	r.PreVal = it.Value()
-	r.PreKey = it.Key()
+	type held struct {
+		what       string
+		said, kept []byte
+	}
+	var hs []held
+	hold := func(what string, b []byte) []byte {
+		c := clone(b)
+		hs = append(hs, held{what, c, b})
+		return c
+	}
+	r.PreVal = hold("value", it.Value())
+	r.PreKey = hold("key", it.Key())
 	for it.Next() {
 		if len(r.Pairs) >= maxPairs {
 			r.Overrun = true
 			break
 		}
-		r.Pairs = append(r.Pairs, [2][]byte{it.Key(), it.Value()})
+		k := hold("key", it.Key())
+		v := hold("value", it.Value())
+		r.Pairs = append(r.Pairs, [2][]byte{k, v})
 	}
+	check := func(when string) {
+		for i, h := range hs {
+			if !bytes.Equal(h.said, h.kept) {
+				pos := "before the first Next"
+				if i >= 2 {
+					pos = fmt.Sprintf("at position %d", (i-2)/2+1)
+				}
+				r.Unstable = append(r.Unstable, [2]string{h.what + "-changes-after-" + when, fmt.Sprintf("the slice returned by %s %s read %s when it was returned and reads %s after %s", map[string]string{"key": "Key()", "value": "Value()"}[h.what], pos, qb(h.said), qb(h.kept), map[string]string{"next": "the iteration has moved on (Next)", "release": "Release"}[when])})
+				hs[i].said = clone(h.kept) // report a later change separately
+			}
+		}
+	}
+	check("next")
 	it.Release()
+	check("release")
 	return
 }
 
@@ -562,6 +612,19 @@ func compare(o *op, cur []int8, rm, rl, rc result) (fs []finding) {
 		}
 	case opIterPrefix, opIterStart:
 		name := o.kindName()
+		// a retained Key()/Value() slice must keep reading what it read when it was handed out
+		for _, x := range []struct {
+			who string
+			r   *result
+		}{{"memdb", &rm}, {"goleveldb", &rl}, {"third-voter", &rc}} {
+			seen := map[string]bool{}
+			for _, u := range x.r.Unstable {
+				if !seen[u[0]] {
+					seen[u[0]] = true
+					add(x.who+"-iterator-"+u[0], "%v on %s: %s (iterated pairs as said at the time: %s)", o, x.who, u[1], showPairs(x.r.Pairs))
+				}
+			}
+		}
 		if rm.Overrun || rl.Overrun {
 			add(name+"-does-not-terminate", "%v: more than %d pairs (MemDB overrun=%v, GoLevelDB overrun=%v)", o, maxPairs, rm.Overrun, rl.Overrun)
 			return
@@ -1020,12 +1083,13 @@ func shortHistory(model []int8) []int {
 type sweepStats struct {
 	outcomes                            map[string]int
 	contents, transitions, nonEmptyIter int
+	multiIter, held                     int // iterations yielding >= 2 pairs; Key()/Value() slices kept and re-read
 }
 
 // sweep creates EVERY content over the current key/value alphabet (plain writes, each content
 // differing from the previous one in about one key) and executes every read operation on it.
 // It extends the read-side comparison to a larger key set than the sequence search can afford.
-func sweep(run *ev.Run) sweepStats {
+func sweep(run *ev.Run, part string) sweepStats {
 	nw := workers()
 	base := len(vals) + 1
 	total := 1
@@ -1040,6 +1104,7 @@ func sweep(run *ev.Run) sweepStats {
 	}
 	var mu sync.Mutex
 	found := map[string]*witness{}
+	found2 := map[string]*witness{} // smallest witness per class among iterations yielding >= 2 pairs
 	foundCount := map[string]int{}
 	st := sweepStats{outcomes: map[string]int{}}
 	var wg sync.WaitGroup
@@ -1050,12 +1115,13 @@ func sweep(run *ev.Run) sweepStats {
 			t := newTriple(fmt.Sprint("s", w))
 			defer t.close()
 			lf := map[string]*witness{}
+			lf2 := map[string]*witness{}
 			lc := map[string]int{}
 			ls := sweepStats{outcomes: map[string]int{}}
 			lo, hi := total*w/nw, total*(w+1)/nw
 			for idx := lo; idx < hi; idx++ {
 				if idx%64 == 0 && run.OutOfTime() {
-					run.Capped("time budget reached during the content sweep")
+					run.Capped("time budget reached during the " + part)
 					break
 				}
 				if t.age >= 4*recycleEvery {
@@ -1067,12 +1133,16 @@ func sweep(run *ev.Run) sweepStats {
 				t.moveTo(model)
 				m, l, c := t.content(true)
 				s := &state{digest: m + "|" + l + "|" + c, model: model, depth: idx}
+				multi := false
 				note := func(oi int, fs []finding) {
 					for _, f := range fs {
 						lc[f.Key]++
 						x := &witness{s, oi, f.What}
 						if old, ok := lf[f.Key]; !ok || less(x, old) {
 							lf[f.Key] = x
+						}
+						if old, ok := lf2[f.Key]; multi && (!ok || less(x, old)) {
+							lf2[f.Key] = x
 						}
 					}
 				}
@@ -1102,7 +1172,14 @@ func sweep(run *ev.Run) sweepStats {
 					if len(rc.Pairs) > 0 {
 						ls.nonEmptyIter++
 					}
+					if len(rc.Pairs) > 1 {
+						ls.multiIter++
+					}
+					if o.Kind != opGet {
+						ls.held += 2 * (2 + 2*len(rl.Pairs)) // both backends: Value/Key before Next + every pair
+					}
 					ls.outcomes[outcomeOf(o, rc)]++
+					multi = len(rc.Pairs) > 1
 					note(oi, compare(o, model, rm, rl, rc))
 				}
 			}
@@ -1112,12 +1189,19 @@ func sweep(run *ev.Run) sweepStats {
 					found[k] = x
 				}
 			}
+			for k, x := range lf2 {
+				if old, ok := found2[k]; !ok || less(x, old) {
+					found2[k] = x
+				}
+			}
 			for k, n := range lc {
 				foundCount[k] += n
 			}
 			st.contents += ls.contents
 			st.transitions += ls.transitions
 			st.nonEmptyIter += ls.nonEmptyIter
+			st.multiIter += ls.multiIter
+			st.held += ls.held
 			for k, n := range ls.outcomes {
 				st.outcomes[k] += n
 			}
@@ -1132,23 +1216,35 @@ func sweep(run *ev.Run) sweepStats {
 	}
 	sort.Strings(fk)
 	for _, k := range fk {
-		run.Add("violating_transitions_in_sweep", foundCount[k])
-		x := found[k]
-		h := shortHistory(x.st.model)
-		if x.op >= 0 {
-			h = append(h, x.op)
-		}
+		run.Add("violating_transitions_in_"+strings.ReplaceAll(part, " ", "_"), foundCount[k])
+		// the smallest witness of a class may depend on what earlier contents left behind in a re-used
+		// store (deleted entries); if it does not reproduce on fresh stores, the smallest witness whose
+		// iteration yields >= 2 live pairs is tried as well
+		var x *witness
+		var h []int
 		confirmed := false
-		for _, f := range replayFresh(h) {
-			if confirms(f, k) {
-				confirmed = true
+		for _, c := range []*witness{found[k], found2[k]} {
+			if c == nil || confirmed {
+				continue
+			}
+			hc := shortHistory(c.st.model)
+			if c.op >= 0 {
+				hc = append(hc, c.op)
+			}
+			for _, f := range replayFresh(hc) {
+				if confirms(f, k) {
+					confirmed = true
+				}
+			}
+			if x == nil || confirmed {
+				x, h = c, hc
 			}
 		}
 		key := k
 		if !confirmed && x.op >= 0 {
 			key = k + "-only-on-reused-store"
 		}
-		run.Violation(key, fmt.Sprintf("history %v: %s (content sweep; reproduced on freshly created stores: %v; %d read operations of this class)", describe(h), x.what, confirmed, foundCount[k]),
+		run.Violation(key, fmt.Sprintf("history %v: %s (%s; reproduced on freshly created stores: %v; %d read operations of this class)", describe(h), x.what, part, confirmed, foundCount[k]),
 			map[string]interface{}{"history": describe(h), "op_indices": h, "what": x.what, "confirmed_on_fresh_stores": confirmed})
 	}
 	return st
@@ -1374,16 +1470,39 @@ func main() {
 		keys = sixKeys
 	}
 	ops = buildOps()
-	sw := sweep(run)
+	sw := sweep(run, "sweep")
 	ks = nil
 	for _, k := range keys {
 		ks = append(ks, qb(k))
 	}
+
+	// part 1c: the same read-only sweep over an alphabet chosen for the SHAPE of neighbouring values
+	// (see holdVals*): every content, every iteration, with every Key()/Value() slice kept across the
+	// following Next calls and across Release (drain)
+	if run.Thorough() {
+		keys, vals = holdKeysThorough, holdValsThorough
+	} else {
+		keys, vals = holdKeysQuick, holdValsQuick
+	}
+	ops = buildOps()
+	hw := sweep(run, "retained-result sweep")
+	var hks, hvs []string
+	for _, k := range keys {
+		hks = append(hks, qb(k))
+	}
+	for _, v := range vals {
+		hvs = append(hvs, qb(v))
+	}
 	nodePart(run)
 
 	run.Set("states", st.states)
-	run.Set("transitions", st.transitions+sw.transitions)
-	run.Set("traces_validated_against_impl", st.comparisons+sw.transitions)
+	run.Set("transitions", st.transitions+sw.transitions+hw.transitions)
+	run.Set("traces_validated_against_impl", st.comparisons+sw.transitions+hw.transitions)
+	run.Set("retained_sweep_contents", hw.contents)
+	run.Set("retained_sweep_read_transitions", hw.transitions)
+	run.Set("retained_sweep_iterations_yielding_pairs", hw.nonEmptyIter)
+	run.Set("retained_sweep_iterations_yielding_2_or_more_pairs", hw.multiIter)
+	run.Set("retained_sweep_slices_kept_and_rechecked", hw.held+sw.held)
 	run.Set("max_depth", depth)
 	run.Set("search_transitions", st.transitions)
 	run.Set("search_operations_in_alphabet", searchOps)
@@ -1404,11 +1523,14 @@ func main() {
 	for k, n := range sw.outcomes {
 		classes[k] += n
 	}
+	for k, n := range hw.outcomes {
+		classes[k] += n
+	}
 	run.Set("operation_result_classes", classes)
 	for k := range classes {
 		run.Outcome(k)
 	}
-	run.Set("rule", "SEARCH: "+searchAlphabet+"; operations Get, Set, Delete, Batch of 0..2 Set/Delete (ordered), IteratorPrefix(p), IteratorPrefixWithStart(p, s|nil, false) drained (Value, Key before the first Next, then all pairs). A state is the content read back from MemDB (with nil-ness), GoLevelDB (raw handle) and crashkv; from every state reached in fewer than max_depth operations every operation is executed on all three stores and compared (read operations right after the state's own incoming operation was executed for real; mutating operations followed by a content read-back and undone by plain writes); every reported class is re-executed from freshly created stores. search_fixpoint_reached=true means no new content appears: all histories of any length over this alphabet lead to an explored state. SWEEP: every content over keys "+strings.Join(ks, ",")+" and the same values is created by plain writes and every read operation is executed and compared. transitions = (state, operation) pairs executed, each one three-way comparison.")
+	run.Set("rule", "SEARCH: "+searchAlphabet+"; operations Get, Set, Delete, Batch of 0..2 Set/Delete (ordered), IteratorPrefix(p), IteratorPrefixWithStart(p, s|nil, false) drained (Value, Key before the first Next, then all pairs). A state is the content read back from MemDB (with nil-ness), GoLevelDB (raw handle) and crashkv; from every state reached in fewer than max_depth operations every operation is executed on all three stores and compared (read operations right after the state's own incoming operation was executed for real; mutating operations followed by a content read-back and undone by plain writes); every reported class is re-executed from freshly created stores. search_fixpoint_reached=true means no new content appears: all histories of any length over this alphabet lead to an explored state. SWEEP: every content over keys "+strings.Join(ks, ",")+" and the same values is created by plain writes and every read operation is executed and compared. RETAINED-RESULT SWEEP: the same over keys "+strings.Join(hks, ",")+" and values "+strings.Join(hvs, ",")+" (neighbouring values of equal length with different bytes, shrinking, growing, empty in between). In ALL three parts an iteration is drained the way a caller that collects the pairs does: every slice handed out by Key()/Value() (before the first Next and at every position) is kept next to a copy taken on the spot, and must still read the same after the Next loop has ended and after Release (keys <backend>-iterator-{key,value}-changes-after-{next,release}); the pair lists compared between the backends are the copies. transitions = (state, operation) pairs executed, each one three-way comparison.")
 	run.Assume("verif/lib/crashkv (sorted map) is the reference for what a prefix / start-bounded iteration is; reverse iteration, Seek on a live iterator and use of an iterator after exhaustion are outside the alphabet")
 	os.RemoveAll(baseDir)
 	run.Assume("content equality is taken as state equality for GoLevelDB (its memtable / journal layering is not part of the digest); each reported class is additionally confirmed on freshly created stores")
